@@ -407,6 +407,27 @@ func execRun(c *ctx, in ev) ev {
 		}
 		s.plainAddOrigin = true
 	}
+	// names in every style an origin can have (always olen bytes): a trailing dot, a last character of several bytes,
+	// surrounding white space - to the issuer a name is a byte string, and the honest run must complete for each
+	if ob := []byte(origin); kind == "Id" {
+		switch (jInt(in["rid"]) / 2) % 4 {
+		case 1:
+			if olen >= 2 {
+				ob[olen-1] = '.'
+			}
+		case 2:
+			if olen >= 4 && jInt(in["rid"])%4 < 2 {
+				copy(ob[olen-3:], "\u30c8") // 3 bytes
+			} else if olen >= 3 {
+				copy(ob[olen-2:], "\u00e9") // 2 bytes
+			}
+		case 3:
+			if olen >= 3 {
+				ob[0], ob[olen-1] = ' ', ' '
+			}
+		}
+		origin = string(ob)
+	}
 	if t != 5 {
 		n = 1
 	}
@@ -754,9 +775,12 @@ type rlWorld struct {
 
 func newRLWorld(c *ctx) *rlWorld {
 	origin := "registered.example"
-	return &rlWorld{origin: origin, w: newT3World(rsaKey(0), c.seed, map[string]string{origin: "a"}),
+	// a second registered origin, longer than two padding blocks (its block-length prefixes are NOT registered)
+	return &rlWorld{origin: origin, w: newT3World(rsaKey(0), c.seed, map[string]string{origin: "a", rlLongOrigin: "b"}),
 		other: newT3World(rsaKey(1), c.seed, map[string]string{origin: "a"}), secret: p384Scalar(c.seed, "rl-client")}
 }
+
+const rlLongOrigin = "a-registered-origin-name-that-is-longer-than-two-blocks-of-padding.example" // 73 bytes
 
 func (x *rlWorld) step(c *ctx, cls map[string]any, r *rand.Rand) ev {
 	kind, _ := cls["kind"].(string)
@@ -788,6 +812,8 @@ func (x *rlWorld) step(c *ctx, cls map[string]any, r *rand.Rand) ev {
 		switch kind {
 		case "Id":
 			x.prev, x.prevBlind = req, blind
+		case "IdLong": // an honest request for the long registered origin
+			enc = remarshal(mk(w, rlLongOrigin))
 		case "ReplaySame": // the request answered before, again (the issuer keeps no per-request state)
 			if x.prev != nil {
 				enc = remarshal(x.prev)
@@ -814,6 +840,7 @@ func (x *rlWorld) step(c *ctx, cls map[string]any, r *rand.Rand) ev {
 		case "Unregistered":
 			name := map[string]string{"last-byte": "registered.examplf", "prefix": "registered.exampl", "suffix": "registered.example.", "inner-nul": "registered\x00example",
 				"case": "Registered.example", "empty": "", "long": strings.Repeat("registered.example", 9),
+				"block-prefix-32": rlLongOrigin[:32], "block-prefix-64": rlLongOrigin[:64], "block-prefix-31": rlLongOrigin[:31], "long-last-byte": rlLongOrigin[:72] + "f",
 				"space-suffix": "registered.example ", "space-prefix": " registered.example", "tab-suffix": "registered.example\t", "upper": "REGISTERED.EXAMPLE",
 				"nul-suffix": "registered.example\x00.attacker.example", "nul-suffix-short": "registered.example\x00a", "nul-prefix": "\x00registered.example"}[cls["variant"].(string)]
 			enc = remarshal(mk(w, name))
@@ -965,6 +992,32 @@ func detBlind(seed int64, t int, name string) []byte {
 	}
 	if name == "zero" { // the degenerate blind: not invertible, so no token can come of it - least of all a wrong one
 		return make([]byte, map[int]int{1: 48, 5: 32, 2: 256}[t])
+	}
+	if strings.HasPrefix(name, "zero-") { // other ENCODINGS of the degenerate blind: the group order / modulus itself, ...
+		switch t {
+		case 1:
+			b := make([]byte, 48)
+			elliptic.P384().Params().N.FillBytes(b)
+			return b
+		case 2:
+			b := make([]byte, 256)
+			rsaKey(0).N.FillBytes(b) // (for key k1; under k2 just another blind that is refused or harmless)
+			return b
+		default: // ristretto255: l little-endian; the decoder ignores the top bit
+			l, _ := new(bigInt).SetString("7237005577332262213973186563042994240857116359379907606001950938285454250989", 10)
+			be := make([]byte, 32)
+			if name != "zero-top" {
+				l.FillBytes(be)
+			}
+			b := make([]byte, 32)
+			for i := range be {
+				b[i] = be[31-i]
+			}
+			if name == "zero-top" || name == "zero-order-top" {
+				b[31] |= 0x80
+			}
+			return b
+		}
 	}
 	switch t {
 	case 1: // P-384 scalar, 48 bytes big-endian
@@ -1953,6 +2006,7 @@ func genIssuance(c *ctx, emit func(ev)) {
 		}
 		for rep := 0; rep < c.tierInt(3, 8); rep++ {
 			rl(ev{"kind": "Id"})
+			rl(ev{"kind": "IdLong"})
 			rl(ev{"kind": "ResealedHonest"})
 			rl(ev{"kind": "ForeignIssuer"})
 			rl(ev{"kind": "OtherSigner"})
@@ -1965,7 +2019,7 @@ func genIssuance(c *ctx, emit func(ev)) {
 				rl(ev{"kind": "BadInner", "k": k})
 			}
 			for _, v := range []string{"last-byte", "prefix", "suffix", "inner-nul", "case", "empty", "long", "nul-suffix", "nul-suffix-short", "nul-prefix",
-				"space-suffix", "space-prefix", "tab-suffix", "upper"} {
+				"space-suffix", "space-prefix", "tab-suffix", "upper", "block-prefix-32", "block-prefix-64", "block-prefix-31", "long-last-byte"} {
 				rl(ev{"kind": "Unregistered", "variant": v})
 			}
 		}
@@ -2020,7 +2074,8 @@ func genIssuance(c *ctx, emit func(ev)) {
 			for _, comp := range [][2]string{{"n1+n2", "b1+b2"}, {"n1+n2", "b2+b1"}, {"n2+n1", "b2+b1"}, {"n1", "b1"}, {"n2", "b2"}, {"n1", "b2"},
 				{"n1+n2+n3", "b1+b2+one"}, {"n3+n1", "one+b1"}, {"n1+n2", "b1+b1"}, {"n1+n2", "b1+b2"}, {"n1+n2", "lead0+b2"}, {"n1+n2", "b3+b4"},
 				{"many511", "mb"}, {"many512", "mb"}, {"many512", "mb"}, {"many512", "mc"},
-				{"n1", "zero"}, {"n1+n2", "b1+zero"}, {"n1+n2", "zero+b2"}, {"n1", "short"}, {"n1+n2", "short+b2"}, {"n1+n2+n3", "b1+short+b2"}} {
+				{"n1", "zero"}, {"n1+n2", "b1+zero"}, {"n1+n2", "zero+b2"}, {"n1", "zero-order"}, {"n1", "zero-top"}, {"n1", "zero-order-top"},
+				{"n1+n2", "b1+zero-order"}, {"n1+n2", "zero-top+b2"}, {"n1", "short"}, {"n1+n2", "short+b2"}, {"n1+n2+n3", "b1+short+b2"}} {
 				rows = append(rows, ev{"t": 5, "key": key, "nc": comp[0], "blind": comp[1], "salt": "s1"})
 			}
 		}
@@ -2038,6 +2093,7 @@ func genIssuance(c *ctx, emit func(ev)) {
 						rows = append(rows, ev{"t": t, "key": key, "nc": nc, "blind": names[0], "salt": salt})
 						if salt == "s1" && nc == "n1" {
 							rows = append(rows, ev{"t": t, "key": key, "nc": nc, "blind": "zero", "salt": salt})
+							rows = append(rows, ev{"t": t, "key": key, "nc": nc, "blind": "zero-order", "salt": salt})
 						}
 						if t == 2 && salt == "s1" && nc == "n1" {
 							// zero-length salts (twice each, and under two blinds): still a function of the arguments
